@@ -475,6 +475,20 @@ fn run_c19(ctx: &mut Ctx) -> Verdict {
         let follow = ctx.tape.flag();
         ev!(ctx, "op {step}: {} <{}>", if follow { "get_resource+follow" } else { "get" }, iri_s.replace(base.to_str().unwrap_or("\u{0}"), "$BASE"));
         ctx.sample(|| format!("config {config:?}; op {step}: {} <{iri_s}>", if follow { "get_resource+follow" } else { "get" }));
+        {
+            // shape of the IRI, for the distinctness measure
+            let mut bits = 0u64;
+            for (i, pat) in ["..", "/./", "//", "%2", "\\", "#", "?", ".ttl", ".nt", ".jsonld", ".rdf"].iter().enumerate() {
+                if iri_s.get(8..).is_some_and(|rest| rest.contains(pat)) {
+                    bits |= 1 << i;
+                }
+            }
+            if config.iter().any(|(ns, _)| iri_s.starts_with(ns.as_str())) {
+                bits |= 1 << 12;
+            }
+            bits |= (iri_s.matches('/').count().min(15) as u64) << 13;
+            ctx.sig_u(bits);
+        }
         if iri_s.contains("..") {
             ctx.probe("iri_with_dot_dot");
         }
